@@ -702,6 +702,9 @@ func readAllOf(f hackpadfs.File) ([]byte, error) {
 	return buf.Bytes(), err
 }
 
+// c11Hangs counts concurrent-open trials whose openers never all returned
+var c11Hangs int
+
 func runC11(r *Rng, n int, replay string) {
 	defer runC11CrossNames(950000)
 	id := 0
@@ -877,7 +880,7 @@ func runC11(r *Rng, n int, replay string) {
 			}
 		}
 		// concurrent first opens of one name, the copy paused at every chunk boundary
-		for trial := 0; trial < 2 && id < n; trial++ {
+		for trial := 0; trial < 2 && id < n && c11Hangs < 2; trial++ { // (two hung trials are enough to report: each costs 20 s)
 			k := 2 + (it+trial)%3
 			src := mkSrc()
 			stc, store := newStore(minimal)
@@ -932,6 +935,7 @@ func runC11(r *Rng, n int, replay string) {
 			case <-done:
 			case <-time.After(20 * time.Second):
 				c.fail(hdr+": the opens did not all return", "concurrent:hang")
+				c11Hangs++
 			}
 			for g, res := range results {
 				if res != "complete" && res != "err" {
